@@ -11,7 +11,7 @@ CONSTANTS
   FU = 2
   Ver = 1
   MaxCalls = 5
-  MCToks = {"t1", "t2"}
+  MCToks = {"t1"}
 SPECIFICATION MCSpec
 INVARIANT SlotType TableInv ProbeBounded TablesDisjointFromData NoDamage ListfileExact AbsClean
 PROPERTY AbsSpec OpRefines AtomicRefines
